@@ -220,6 +220,22 @@ def run(ctx):
             ctx.count('auth:%s' % auth_mode)
             rs, obs_all = run_job(ctx, b, seqs, envtok, mk, vocab, 'relay %s %s auth=%s' % ('v4' if v4 else 'v6', label, auth_mode), rtok)
     if b and ctx.driver:
+        # IPv6 clients whose last 32 bits lie in the network control/relayclients lists for IPv4: they are IPv6 clients,
+        # only relayclients6 counts for them (seeded change c01-m9 treated IPv4-compatible addresses ::a.b.c.d as IPv4)
+        for ip in ('::192.0.2.24', '::c000:218', '2001:db8:1::c000:218', '64:ff9b::192.0.2.24', '::fffe:192.0.2.24'):
+            for six in (None, session.ipbl_record('2001:db9::', 32)):
+                rtok = vlib.run_batch(ctx.driver, ['relayverdict 0 %s %s' % (ip16(ip).hex(), 'absent' if six is None else six.hex())])[0]
+
+                def mk(ip=ip, six=six):
+                    sc = W.base_scenario(remoteip=ip)
+                    sc.control['relayclients'] = session.ipbl_record('192.0.2.0', 24)
+                    if six is not None:
+                        sc.control['relayclients6'] = six
+                    return sc
+                ctx.count('relay-file:ipv4-list-ipv6-client')
+                run_job(ctx, b, sequences(rng, 4), 'relay=%s,tls=n,db=0,sub=0' % rtok, mk, make_vocab('none'),
+                        'relay v6 client %s with the IPv4 list covering its last 32 bits' % ip, rtok)
+    if b and ctx.driver:
         for label, content in RCPTHOSTS:
             vocab = rcpthosts_vocab(ctx, content)
             for relay, rtok in (('absent', 'n'), ('listed', 'l')):
